@@ -183,6 +183,15 @@ CLAIMS["C20"] = (
     "Assumes stdlib deque semantics and lark's argument filtering.",
     "DESIGN.md §3 C20",
 )
+CLAIMS["C19"] = (
+    "effect / compensation dataflow with exceptional edges over the legacy operations, helper summaries re-confirmed against their bodies",
+    "For replace, replace_with, _attach_inner (via __post_init__/attach), the transform visitor and the transformer, the set of outstanding effect primitives on pre-existing nodes "
+    "(parent cleared/set, registry pop/store, id/original_id rewritten, completed replacements) is carried with branch facts to every failure exit; an effect that reaches a failure "
+    "exit without its inverse is reported. The four genuine defects found this way are listed as known findings (keyed by operation and effect); any other uncompensated effect fails the "
+    "check. Pre-checks precede the first effect. Whether restored values equal the old values in every history is not decided.",
+    "Assumes parent/registry primitives and compensation code in handlers do not raise; asserts state beliefs and are not failure exits.",
+    "DESIGN.md §3 C19, Appendix B",
+)
 PENDING = "check not built yet (work in progress; see DESIGN.md for the planned static rules)"
 
 checks = []
